@@ -6,6 +6,7 @@ import InTotoModel.Model.Signed
 import InTotoModel.Model.JsonParse
 import InTotoModel.Model.Threshold
 import InTotoModel.Driver.RulesProto
+import InTotoModel.Driver.VerifyProto
 /-
   Executable model driver: one operation per input line, one canonical answer per line.
   Unknown or malformed operations answer `bad-op` (never a default).
@@ -93,6 +94,11 @@ def step (line : String) : String :=
     match readRulesScenario toks with
     | some (item, links) =>
       if RulesSpec.Normalized item links then toString (RulesSpec.verdict item links) else "na"
+    | none => "bad-op"
+  | "verify" :: toks => runVerify toks
+  | ["prefix8", h] =>
+    match strOfHex h with
+    | some k => if (Utf8.encode k).length == 64 then "ok " ++ hexOfStr (Verify.prefix8 k) else "rejected"
     | none => "bad-op"
   | _ => "bad-op"
 
